@@ -51,6 +51,13 @@ def main(a):
         if v["kind"] == "break":
             ok = compiled and rc == 1 and any(v["key"] in k for k in keys)
         else:
+            # a keep variant must leave every check it names silent
+            for extra_pid in v.get("also", []):
+                rc2, out2 = res[extra_pid]
+                if rc2 != 0:
+                    rc = rc2
+                    keys = keys + re.findall(r"rule=\S+ key=(\S+)", out2)
+                    out = out + "\n" + out2
             ok = compiled and rc == 0
         rep.append((v["name"], v["kind"], ok, rc, keys[:3], round(time.time() - t0, 1)))
         print("%-34s %-5s %s rc=%d keys=%s %.0fs" % (v["name"], v["kind"], "OK " if ok else "FAIL", rc, keys[:3], time.time() - t0), flush=True)
